@@ -28,6 +28,15 @@ type Result struct {
 	Discard    string   // non-empty: case is outside the property's domain (counted, not failed)
 	Sample     string   // human-readable rendering for evidence samples
 	Infra      string   // non-empty: infrastructure trouble (never a violation)
+	// Sub, when non-empty, says that the case was a batch of independent
+	// evaluations: each is counted as one evaluation with its own distinctness key.
+	Sub []SubEval
+}
+
+type SubEval struct {
+	Key        string
+	NonTrivial bool
+	Sample     string
 }
 
 // Prop describes one registered property check.
@@ -168,13 +177,27 @@ func (s *Stats) Record(r Result) {
 		s.Infra[r.Infra]++
 		return
 	}
-	s.Evals++
 	if r.Discard != "" {
 		s.Discards[r.Discard]++
 	}
 	for _, l := range r.Labels {
 		s.Labels[l]++
 	}
+	if len(r.Sub) > 0 {
+		for _, e := range r.Sub {
+			s.Evals++
+			if e.NonTrivial {
+				s.NTCount++
+				s.NT[Hash64(e.Key)] = struct{}{}
+				s.nsample++
+				if e.Sample != "" && s.nsample&(s.nsample-1) == 0 && len(s.Samples) < 24 {
+					s.Samples = append(s.Samples, e.Sample)
+				}
+			}
+		}
+		return
+	}
+	s.Evals++
 	if r.NonTrivial && r.Discard == "" {
 		s.NTCount++
 		s.NT[Hash64(r.Key)] = struct{}{}
